@@ -59,7 +59,7 @@ func nearConfigured(r *rand.Rand, s string) string {
 }
 
 func injectLogoutFault(r *rand.Rand, l *sim.Logout) string {
-	faults := []string{"version-1.1", "version-empty", "version-absent", "dest-other", "dest-nearmiss", "dest-empty", "dest-absent", "issuer-absent", "issuer-other", "issuer-empty", "issuer-nearmiss"}
+	faults := []string{"version-1.1", "version-empty", "version-absent", "version-nearmiss", "dest-other", "dest-nearmiss", "dest-empty", "dest-absent", "issuer-absent", "issuer-other", "issuer-empty", "issuer-nearmiss"}
 	if l.IsResponse {
 		faults = append(faults, "status-absent", "statuscode-absent", "status-requester", "status-second-level-success", "status-nearmiss")
 	}
@@ -69,6 +69,8 @@ func injectLogoutFault(r *rand.Rand, l *sim.Logout) string {
 		l.Version = sim.S("1.1")
 	case "version-empty":
 		l.Version = sim.S("")
+	case "version-nearmiss":
+		l.Version = sim.S(NearVersion(r))
 	case "version-absent":
 		l.Version = nil
 	case "dest-other":
@@ -182,6 +184,9 @@ func GenLogoutCase(r *rand.Rand, w *World, isResp bool) (*LogoutCase, error) {
 	nf := []int{0, 0, 1, 1, 2}[r.IntN(5)]
 	for i := 0; i < nf; i++ {
 		lc.Fault = append(lc.Fault, injectLogoutFault(r, l))
+	}
+	if l.Issuer != nil && r.IntN(4) == 0 {
+		l.IssuerFormat = sim.S(pick(r, IssuerFormats))
 	}
 	lc.State = pick(r, []string{"unsigned", "trusted", "trusted", "untrusted", "foreign-key", "tampered", "relocated", "wrapped-fresh", "wrapped-same", "unsigned-flag-injected", "unsigned-shadow-attrs"})
 	st := sim.RandomStyle(r)
